@@ -179,7 +179,7 @@ def rule_r2(prog, res) -> None:
                 continue
             for k_, v_ in [(k.arg, k.value) for k in c.keywords if k.arg and k.arg.startswith("has_")] + [(f_, a_) for f_, a_ in zip(list(info.class_ann), c.args)]:
                 attr = k_[4:].rstrip("s")
-                prm = next((q for q in fi.param_names() if q.endswith("_name") and q[: -len("_name")].rstrip("s").startswith(attr[:5])), None)
+                prm = next((q for q in fi.param_names() if q.endswith("_name") and q[: -len("_name")].rstrip("s").startswith(attr[:5])), None) or next((q for q in fi.param_names() if q.rstrip("s") == attr), None)
                 if prm is None or not any(isinstance(y, ast.Name) and y.id == prm for y in ast.walk(v_)):
                     continue
                 n_ci += 1
